@@ -131,6 +131,25 @@ def concat_synth_search(ctx, shim, r, nfonts, per_font, pc, pt):
                               kind="concat", groups=F.synth_groups(r, nfonts), make=C03mod.synth_make, classify=F.synth_known_class)
 
 
+def di_make(r, g, flags, k):
+    return F.make_di_shaping(r, g, flags)
+
+
+def concat_di_search(ctx, shim, r, nfonts, per_font, pc, pt):
+    C03mod.metamorphic_search(ctx, shim, r, per_font, pc, pt, False, "concat-redistribution-di", F.verify_concat, [pc, pc, pc | pt],
+                              "redistributing UNSAFE_TO_CONCAT-free segments changes the result",
+                              F.DI_RULE + "the redistribution experiment of concat-redistribution-ot",
+                              kind="concat", groups=F.di_groups(r, nfonts), make=di_make, classify=F.di_known_class)
+
+
+def concat_stch_search(ctx, shim, r, nfonts, per_font, pc, pt):
+    C03mod.metamorphic_search(ctx, shim, r, per_font, pc, pt, False, "concat-redistribution-stch", F.verify_concat, [pc, pc, pc | pt],
+                              "redistributing UNSAFE_TO_CONCAT-free segments changes the result",
+                              F.STCH_RULE + "the redistribution experiment of concat-redistribution-ot",
+                              kind="concat", groups=F.stch_groups(r, nfonts), make=lambda r, g, fl, k: F.make_stch_shaping(r, g, fl),
+                              classify=F.stch_known_class)
+
+
 FRACTION_RULE = ("fonts with fraction features (synthetic: digits, U+2044, letters of Latin / Hebrew, any of frac / numr / dnom that makes "
                  "the plan fraction-aware; plus every font under tests/fonts that names frac or numr+dnom) x texts of digit runs, "
                  "U+2044 FRACTION SLASH, letters and spaces with at least one slash (digits on both, one or no side of it) x "
@@ -152,6 +171,11 @@ def run(ctx):
     ctx.assumptions += [
         "theorems are about the Lean model of propagate_flags (ot_shape.rs) and of the flag setters of buffer.rs; the "
         "model is tied to the crate by the flags-walks correspondence stream (hook: verif::ot_shape::propagate_flags)",
+        "C04_delin_backward_keeps_concat: removing a default ignorable (delete_glyphs_inplace, backward merge) keeps its "
+        "UNSAFE_TO_CONCAT on the run that takes over its cluster; tied to the crate by flags-carry + the carry-exact oracle and, "
+        "through shape(), by concat-redistribution-di (fonts without a space glyph, native right-to-left runs)",
+        "known class arabic-pcm-stch: decided per case from the cut and the difference (flagslib.stch_attribution): no cut inside a "
+        "mark + word span that apply_stch flags, only glyphs of marks whose stretch context changed differ",
         "that every other pass touches the flag bits only through the buffer primitives is not proved; it is monitored "
         "by the shape()-level hygiene search over corpus fonts (partial, as DESIGN.md §5 C04 says)",
     ]
@@ -173,11 +197,14 @@ def run(ctx):
     ctx.correspond("gsub-flags", groups=C03mod.gsub_flag_groups(ctx, shim, ctx.rng("gsub-flags"), ctx.budget(150, 3000), 10),
                    classify=C06mod.gsub_classify, canon=F.canon_panic, only=lambda ln: ln.startswith("gsub "))
     hook_search(ctx, shim, ctx.rng("hook"), ctx.budget(20000, 300000), pc, pt)
+    C03mod.carry_search(ctx, shim, ctx.rng("carry-exact"), ctx.budget(10000, 200000), pc, pt)
     shape_hygiene(ctx, shim, ctx.rng("hygiene"), ctx.budget(48, 400), pc, pt)
     concat_search(ctx, shim, ctx.rng("concat-ot"), ctx.budget(60, 1000), pc, pt, False, "concat-redistribution-ot")
     concat_search(ctx, shim, ctx.rng("concat-aat"), ctx.budget(80, 1500), pc, pt, True, "concat-redistribution-aat")
     concat_synth_search(ctx, shim, ctx.rng("concat-synth"), ctx.budget(200, 4000), 12, pc, pt)
     concat_fraction_search(ctx, shim, ctx.rng("concat-fraction"), ctx.budget(30, 400), ctx.budget(30, 60), pc, pt)
+    concat_di_search(ctx, shim, ctx.rng("concat-di"), ctx.budget(300, 6000), 16, pc, pt)
+    concat_stch_search(ctx, shim, ctx.rng("concat-stch"), ctx.budget(100, 2000), 12, pc, pt)
 
 
 def replay(ctx, rp):
@@ -201,6 +228,8 @@ def replay(ctx, rp):
         print("reassembled:", F.fmt_glyphs(o.get("recon") or []))
         print("difference:", o.get("diff"))
         return 1 if o["status"] in ("DIFF", "piecefail", "noresult") else 0
+    if rp.get("stream") == "carry-exact":
+        return C03mod.replay(ctx, rp)
     if rp.get("stream") == "flags-hook-hygiene":
         b = dict(F.constants(shim)[1])
         o = vlib.run_lines(shim, [rp["request"]], nproc=1)[0]
